@@ -76,6 +76,72 @@ struct Ctx {
 
 static LOGGER_ON: std::sync::atomic::AtomicBool = std::sync::atomic::AtomicBool::new(false);
 
+/// What the watchdog needs to know about the workload in flight (set once per workload).
+static CUR_WORKLOAD: std::sync::Mutex<Option<(Workload, u64, Ctx)>> = std::sync::Mutex::new(None);
+
+/// Wall-clock watchdog. The simulator owns every scheduling decision, but code that loops without ever
+/// reaching a scheduling point or a source read is outside its control: after `limit_s` seconds without a
+/// tick the process ends. In a single-thread or frame-wise execution (one task, nothing to wait for) such a
+/// loop is the library's own endless loop: it is reported as a violation (class `hang`) with a replay
+/// file. In a multi-thread execution it may equally be a spin-wait on another thread, which real threads
+/// would satisfy and this simulator cannot schedule: that is a harness error (exit 2), never a verdict.
+fn start_watchdog(limit_s: u64) {
+    let _ = std::thread::Builder::new().name("watchdog".into()).spawn(move || {
+        use std::sync::atomic::Ordering;
+        let mut last = rng::TICKS.load(Ordering::Relaxed);
+        let mut since = std::time::Instant::now();
+        loop {
+            std::thread::sleep(std::time::Duration::from_millis(500));
+            let now = rng::TICKS.load(Ordering::Relaxed);
+            if now != last {
+                last = now;
+                since = std::time::Instant::now();
+                continue;
+            }
+            if since.elapsed().as_secs() < limit_s {
+                continue;
+            }
+            let mode = exec::CUR_MODE.load(Ordering::SeqCst);
+            let cur = CUR_WORKLOAD.lock().ok().and_then(|g| g.as_ref().map(|(w, i, c)| (w.clone(), *i, Ctx { prop: c.prop.clone(), seed: c.seed, tier: c.tier.clone(), replay_out: c.replay_out.clone() })));
+            use std::io::Write;
+            if let (1 | 2, Some((w, run_index, ctx))) = (mode, cur) {
+                let m = if mode == 1 { Mode::Single } else { Mode::Framewise };
+                let detail = format!("{} execution made no progress (no source read) for {limit_s} s: the call does not return", if mode == 1 { "single-thread" } else { "frame-wise" });
+                let rf = ReplayFile {
+                    property: ctx.prop,
+                    engine: if cfg!(feature = "experimental") { "parsim-exp".into() } else if cfg!(debug_assertions) { "parsim-checked".into() } else { "parsim".into() },
+                    verif_seed: ctx.seed,
+                    run_index,
+                    sched_index: u64::MAX,
+                    tier: ctx.tier,
+                    mode: m,
+                    workload: w,
+                    schedule: ScheduleSpec { policy: Policy::Uniform, seed: 0, choices: vec![], deviations: vec![] },
+                    observed: Some(Observed { class: "hang".into(), site: if mode == 1 { "single-thread".into() } else { "frame-wise".into() }, message: String::new(), detail: detail.clone() }),
+                    minimised: false,
+                    notes: vec![],
+                    logger: LOGGER_ON.load(Ordering::Relaxed),
+                };
+                let path = ctx.replay_out.replace("{i}", &run_index.to_string()).replace("{s}", "hang");
+                if let Some(dir) = std::path::Path::new(&path).parent() {
+                    let _ = std::fs::create_dir_all(dir);
+                }
+                if std::fs::write(&path, serde_json::to_string_pretty(&rf).unwrap()).is_ok() {
+                    println!("CANDIDATE {path}");
+                    println!("RESULT {}", json!({"violation": true, "class": "hang", "site": if mode == 1 { "single-thread" } else { "frame-wise" }, "message": "", "detail": detail}));
+                    let _ = std::io::stdout().flush();
+                    std::process::exit(3);
+                }
+            }
+            let msg = format!("no scheduling decision or source read for {limit_s} s in a multi-thread execution (a loop without a scheduling point: possibly a spin-wait the simulator cannot schedule); not a verdict");
+            eprintln!("HARNESS-ERROR: {msg}");
+            println!("RESULT {}", json!({"harness_error": msg}));
+            let _ = std::io::stdout().flush();
+            std::process::exit(2);
+        }
+    });
+}
+
 std::thread_local! {
     static CTX: std::cell::RefCell<Option<Ctx>> = const { std::cell::RefCell::new(None) };
 }
@@ -488,6 +554,15 @@ struct Plan {
 /// process with code 3 on the first violation.
 #[allow(clippy::too_many_lines)]
 fn run_workload(plan: &Plan, w: &Workload, run_index: u64, seed: u64, cov: &mut Cov, fixed: Option<&ScheduleSpec>, digests: bool) {
+    if let Ok(mut g) = CUR_WORKLOAD.lock() {
+        let ctx = CTX.with(|c| {
+            let c = c.borrow();
+            let c = c.as_ref().expect("ctx");
+            Ctx { prop: c.prop.clone(), seed: c.seed, tier: c.tier.clone(), replay_out: c.replay_out.clone() }
+        });
+        *g = Some((w.clone(), run_index, ctx));
+    }
+    rng::tick();
     let whash = w.hash();
     let data = Arc::new(w.samples());
     cov.workloads += 1;
@@ -915,6 +990,7 @@ fn cmd_run(args: &[String]) {
         logger::install();
         LOGGER_ON.store(true, std::sync::atomic::Ordering::Relaxed);
     }
+    start_watchdog(arg(args, "--hang-s").and_then(|s| s.parse().ok()).unwrap_or(120));
     let plan = plan_for(&prop, tier, scheds);
     let pseed = mix(seed, fnv(&prop));
     let mut cov = Cov::default();
@@ -969,6 +1045,7 @@ fn cmd_exec(args: &[String]) {
         logger::install();
         LOGGER_ON.store(true, std::sync::atomic::Ordering::Relaxed);
     }
+    start_watchdog(arg(args, "--hang-s").and_then(|s| s.parse().ok()).unwrap_or(120));
     let search: u64 = arg(args, "--search").unwrap_or("0").parse().unwrap();
     let sseed: u64 = arg(args, "--search-seed").unwrap_or("1").parse().unwrap();
     let replay_out = arg(args, "--replay-out").unwrap_or("/verif/replays/exec-out.json").to_owned();
